@@ -36,6 +36,14 @@ for d in sorted(glob.glob(V + "/seeded/*/")):
                 try:
                     hdr = [l for l in open(rp).read().splitlines() if l.startswith("# spec-verdict") or l.startswith("# input")]
                     first = " | ".join(h[2:200] for h in hdr)
+                    # the failing input goes into the regression corpus of that property (runs first in every later check);
+                    # very long lines (deep nesting, race rounds) are left out: the generators reproduce them
+                    body = [l for l in open(rp).read().splitlines() if l and not l.startswith("#")]
+                    if body and len(body[0]) < 6000 and " || " not in body[0]:
+                        cd = os.path.join(V, "corpus", p); os.makedirs(cd, exist_ok=True)
+                        with open(os.path.join(cd, name + ".case"), "w") as cf:
+                            cf.write("# failing input found for seeded change %s (%s)\n" % (name, (hdr[0][2:160] if hdr else "")))
+                            cf.write(body[0].split(" ", 1)[1] + "\n")
                 except Exception: pass
             det[p] = {"exit": out.returncode, "violation_lines": len(viol), "with_failing_input": len(real), "first": first}
     finally:
